@@ -29,4 +29,5 @@ PY
   rm -rf $W
 }
 export -f one
-ls seeded | xargs -P $N -I{} bash -c 'one {}'
+# optional further arguments: only these seed directories
+if [ $# -gt 1 ]; then shift; printf "%s\n" "$@"; else ls seeded; fi | xargs -P $N -I{} bash -c 'one {}'
